@@ -160,6 +160,11 @@ public:
     double t_avg_MGC_residual;
     double t_avg_MGC_directSolver;
 
+#ifdef GMGPOLAR_VERIF
+    /* Verification hook: lets an external harness observe levels and run single cycles. */
+    friend struct GMGPolarVerifAccess;
+#endif
+
 private:
     /* --------------- */
     /* Grid Parameters */
